@@ -1,4 +1,5 @@
 import GB.C18.Proofs
+import GB.C18.HBProofs
 import GB.Generated.Lockset
 import GB.Generated.Facts
 import GB.C02.Props   -- CONFINEMENT BACKING block at the end of this file
@@ -104,6 +105,169 @@ theorem C18_mutex_exclusive (h : Holders) (l t1 t2 : Nat) (h1 : h l = some t1) (
 /-- Non-vacuity: a concrete well-formed trace meeting the hypotheses of `C18_common_lock_orders`. -/
 example : runEv (fun _ => none) [Ev.acq 1 7, Ev.acc 1 0, Ev.rel 1 7, Ev.acq 2 7, Ev.acc 2 1, Ev.rel 2 7] ≠ none := by
   decide
+
+
+/-! ## Happens-before beyond mutexes (trace model GB/C18/HB.lean)
+
+  Shape of every lemma (the same as `C18_common_lock_orders`): `sA` is the state right after the first access,
+  `mid` the well-formed segment up to the acquire-side operation `q`, which is enabled in `sB`. If `q` was NOT enabled
+  in `sA`, then `mid` contains the matching release-side operation — so: first access → (program order) release op →
+  acquire op `q` → (program order) second access. Threads, objects, values and segment lengths are universal. -/
+
+theorem C18_hb_chan_send_recv (mid : List HB.Ev) (sA sB sC : HB.St) (t c : Nat)
+    (hmid : HB.run sA mid = some sB) (hempty : sA.queued c = 0) (hq : HB.step sB (.recv t c) = some sC) :
+    ∃ t' m1 m2, mid = m1 ++ HB.Ev.send t' c :: m2 := by
+  have hB : sB.queued c ≠ 0 := by
+    have := (HB.step_core hq).1; simp only [HB.stepCore] at this; split at this
+    · cases this
+    · assumption
+  obtain ⟨m1, e, m2, rfl, he⟩ := HB.enabler_between (fun s => decide (s.queued c ≠ 0))
+    (fun e => match e with | .send _ c' => decide (c' = c) | _ => false)
+    (by
+      intro s e s' hs h0 h1
+      have hc := (HB.step_core hs).1
+      simp only [decide_eq_false_iff_not, Decidable.not_not, decide_eq_true_eq] at h0 h1
+      cases e <;> simp only [HB.stepCore] at hc <;> (try split at hc) <;> (try cases hc) <;> (try exact absurd h0 h1)
+      all_goals (simp only [HB.upd] at h1; split at h1 <;> simp_all <;> omega))
+    mid sA sB hmid (by simp [hempty]) (by simp [hB])
+  cases e <;> simp at he
+  subst he
+  exact ⟨_, m1, m2, rfl⟩
+
+/-- close → receive-of-closed. -/
+theorem C18_hb_close_recv (mid : List HB.Ev) (sA sB sC : HB.St) (t c : Nat)
+    (hmid : HB.run sA mid = some sB) (hopen : sA.closed c = false) (hq : HB.step sB (.recvClosed t c) = some sC) :
+    ∃ t' m1 m2, mid = m1 ++ HB.Ev.close t' c :: m2 := by
+  have hB : sB.closed c = true := by
+    have := (HB.step_core hq).1; simp only [HB.stepCore] at this; split at this
+    · rename_i h; exact h.1
+    · cases this
+  obtain ⟨m1, e, m2, rfl, he⟩ := HB.enabler_between (fun s => s.closed c)
+    (fun e => match e with | .close _ c' => decide (c' = c) | _ => false)
+    (by
+      intro s e s' hs h0 h1
+      have hc := (HB.step_core hs).1
+      cases e <;> simp only [HB.stepCore] at hc <;> (try split at hc) <;> (try cases hc) <;> (try (rw [h0] at h1; cases h1))
+      all_goals (simp only [HB.upd] at h1; split at h1 <;> simp_all))
+    mid sA sB hmid hopen hB
+  cases e <;> simp at he
+  subst he
+  exact ⟨_, m1, m2, rfl⟩
+
+/-- sync.Once / sync.OnceFunc: a call returns only after the (single) execution of the function completed. -/
+theorem C18_hb_once (mid : List HB.Ev) (sA sB sC : HB.St) (t o : Nat)
+    (hmid : HB.run sA mid = some sB) (hnot : sA.once o ≠ 2) (hq : HB.step sB (.onceRet t o) = some sC) :
+    ∃ t' m1 m2, mid = m1 ++ HB.Ev.onceEnd t' o :: m2 := by
+  have hB : sB.once o = 2 := by
+    have := (HB.step_core hq).1; simp only [HB.stepCore] at this; split at this
+    · assumption
+    · cases this
+  obtain ⟨m1, e, m2, rfl, he⟩ := HB.enabler_between (fun s => decide (s.once o = 2))
+    (fun e => match e with | .onceEnd _ o' => decide (o' = o) | _ => false)
+    (by
+      intro s e s' hs h0 h1
+      have hc := (HB.step_core hs).1
+      simp only [decide_eq_false_iff_not, decide_eq_true_eq] at h0 h1
+      cases e <;> simp only [HB.stepCore] at hc <;> (try split at hc) <;> (try cases hc) <;> (try exact absurd h1 h0)
+      all_goals (simp only [HB.upd] at h1; split at h1 <;> simp_all))
+    mid sA sB hmid (by simp [hnot]) (by simp [hB])
+  cases e <;> simp at he
+  subst he
+  exact ⟨_, m1, m2, rfl⟩
+
+/-- …and the function of a Once runs at most once in any well-formed trace (so "the" execution is well defined). -/
+theorem C18_once_runs_once (es : List HB.Ev) (s s' : HB.St) (o : Nat) (hr : HB.run s es = some s') :
+    HB.onceRuns o es ≤ 1 := HB.onceRuns_le_one es s s' o hr
+
+/-- sync.WaitGroup: `Wait` returns only after a `Done` when the counter was positive. -/
+theorem C18_hb_waitgroup (mid : List HB.Ev) (sA sB sC : HB.St) (t w : Nat)
+    (hmid : HB.run sA mid = some sB) (hpos : sA.wg w ≠ 0) (hq : HB.step sB (.wgWait t w) = some sC) :
+    ∃ t' m1 m2, mid = m1 ++ HB.Ev.wgDone t' w :: m2 := by
+  have hB : sB.wg w = 0 := by
+    have := (HB.step_core hq).1; simp only [HB.stepCore] at this; split at this
+    · assumption
+    · cases this
+  obtain ⟨m1, e, m2, rfl, he⟩ := HB.enabler_between (fun s => decide (s.wg w = 0))
+    (fun e => match e with | .wgDone _ w' => decide (w' = w) | _ => false)
+    (by
+      intro s e s' hs h0 h1
+      have hc := (HB.step_core hs).1
+      simp only [decide_eq_false_iff_not, decide_eq_true_eq] at h0 h1
+      cases e <;> simp only [HB.stepCore] at hc <;> (try split at hc) <;> (try cases hc) <;> (try exact absurd h1 h0)
+      all_goals (simp only [HB.upd] at h1; split at h1 <;> simp_all <;> omega))
+    mid sA sB hmid (by simp [hpos]) (by simp [hB])
+  cases e <;> simp at he
+  subst he
+  exact ⟨_, m1, m2, rfl⟩
+
+/-- `go` statement: a goroutine's first step comes after the statement that started it. -/
+theorem C18_hb_spawn (mid : List HB.Ev) (sA sB sC : HB.St) (e2 : HB.Ev)
+    (hmid : HB.run sA mid = some sB) (hnot : sA.started e2.thread = false) (hq : HB.step sB e2 = some sC) :
+    ∃ t' m1 m2, mid = m1 ++ HB.Ev.spawn t' e2.thread :: m2 := by
+  have hB : sB.started e2.thread = true := (HB.step_core hq).2
+  obtain ⟨m1, e, m2, rfl, he⟩ := HB.enabler_between (fun s => s.started e2.thread)
+    (fun e => match e with | .spawn _ c' => decide (c' = e2.thread) | _ => false)
+    (by
+      intro s e s' hs h0 h1
+      have hc := (HB.step_core hs).1
+      cases e <;> simp only [HB.stepCore] at hc <;> (try split at hc) <;> (try cases hc) <;> (try (rw [h0] at h1; cases h1))
+      all_goals (simp only [HB.upd] at h1; split at h1 <;> simp_all))
+    mid sA sB hmid hnot hB
+  cases e <;> simp at he
+  subst he
+  exact ⟨_, m1, m2, rfl⟩
+
+/-- atomics (release/acquire): a load that observes `v` comes after a store of `v` when `x` did not hold `v` before. -/
+theorem C18_hb_atomic_store_load (mid : List HB.Ev) (sA sB sC : HB.St) (t x v : Nat)
+    (hmid : HB.run sA mid = some sB) (hne : sA.val x ≠ v) (hq : HB.step sB (.load t x v) = some sC) :
+    ∃ t' m1 m2, mid = m1 ++ HB.Ev.store t' x v :: m2 := by
+  have hB : sB.val x = v := by
+    have := (HB.step_core hq).1; simp only [HB.stepCore] at this; split at this
+    · assumption
+    · cases this
+  obtain ⟨m1, e, m2, rfl, he⟩ := HB.enabler_between (fun s => decide (s.val x = v))
+    (fun e => match e with | .store _ x' v' => decide (x' = x ∧ v' = v) | _ => false)
+    (by
+      intro s e s' hs h0 h1
+      have hc := (HB.step_core hs).1
+      simp only [decide_eq_false_iff_not, decide_eq_true_eq] at h0 h1
+      cases e <;> simp only [HB.stepCore] at hc <;> (try split at hc) <;> (try cases hc) <;> (try exact absurd h1 h0)
+      all_goals (simp only [HB.upd] at h1; split at h1 <;> simp_all))
+    mid sA sB hmid (by simp [hne]) (by simp [hB])
+  cases e <;> simp at he
+  obtain ⟨h1, h2⟩ := he; subst h1; subst h2
+  exact ⟨_, m1, m2, rfl⟩
+
+/-- context: `<-ctx.Done()` returns only after the cancellation. -/
+theorem C18_hb_ctx_cancel_done (mid : List HB.Ev) (sA sB sC : HB.St) (t c : Nat)
+    (hmid : HB.run sA mid = some sB) (hlive : sA.cancelled c = false) (hq : HB.step sB (.ctxDone t c) = some sC) :
+    ∃ t' m1 m2, mid = m1 ++ HB.Ev.cancel t' c :: m2 := by
+  have hB : sB.cancelled c = true := by
+    have := (HB.step_core hq).1; simp only [HB.stepCore] at this; split at this
+    · assumption
+    · cases this
+  obtain ⟨m1, e, m2, rfl, he⟩ := HB.enabler_between (fun s => s.cancelled c)
+    (fun e => match e with | .cancel _ c' => decide (c' = c) | _ => false)
+    (by
+      intro s e s' hs h0 h1
+      have hc := (HB.step_core hs).1
+      cases e <;> simp only [HB.stepCore] at hc <;> (try split at hc) <;> (try cases hc) <;> (try (rw [h0] at h1; cases h1))
+      all_goals (simp only [HB.upd] at h1; split at h1 <;> simp_all))
+    mid sA sB hmid hlive hB
+  cases e <;> simp at he
+  subst he
+  exact ⟨_, m1, m2, rfl⟩
+
+/-- Non-vacuity, and the resolver's wake-up chain as ONE well-formed trace: main (0) arms generation 1 (plain write `acc 0 1`,
+    atomic store of notify), starts the poller (1) and a ResolveNow caller (2); the caller loads notify, wins the once, reads the
+    channel field (`acc 2 2`), closes it; the poller's receive observes the close and only then writes the field again (`acc 1 3`). -/
+example : HB.run HB.St.init [.acc 0 1, .store 0 9 1, .spawn 0 1, .spawn 0 2, .load 2 9 1, .onceBegin 2 5, .acc 2 2, .close 2 7,
+    .onceEnd 2 5, .onceRet 2 5, .recvClosed 1 7, .acc 1 3, .store 1 9 2] ≠ none := by decide
+/-- …and the same trace with the poller re-arming BEFORE the close is observed is still well-formed as a trace (nothing in the
+    primitives forbids it): it is the code's select/receive placement that excludes it — the CHECKED row `hbRows`. -/
+example : HB.run HB.St.init [.spawn 0 1, .recvClosed 1 7] = none := by decide
+example : HB.run HB.St.init [.wgAdd 0 3 1, .spawn 0 1, .acc 1 0, .wgDone 1 3, .wgWait 0 3, .acc 0 1, .send 0 4, .recv 1 4,
+    .cancel 0 6, .ctxDone 1 6] ≠ none := by decide
 
 
 /-! ## CONFINEMENT BACKING block: the non-mutex ordering arguments of `GB.C18.confinement`, as theorems of the
